@@ -103,7 +103,15 @@ def d2(ctx, prog, build):
         ctx.fail('C14-D2', f'{bc.key}::inverse of', f'`{norm(plain[0])[:70]}`: the matcher needs the pseudo-inverse of the pooled covariance; a plain inverse of a rank-deficient covariance '
                  f'(constant or dependent samples, fewer traces than samples) is a huge meaningless matrix and does not raise', bc.where(plain[0]))
     else:
-        ctx.check(bool(inv) and all(norm(s.value.args[0]) == 'self.pooled_covariance' for s in inv), 'C14-D2', f'{bc.key}::inverse of',
+        def is_cov(a):
+            # the attribute, or a local whose only plain binding is the attribute (augmented assignments act in place on the shared array)
+            if norm(a) == 'self.pooled_covariance':
+                return True
+            if isinstance(a, ast.Name):
+                binds = [x for x in ast.walk(bc.node) if isinstance(x, ast.Assign) and any(isinstance(t, ast.Name) and t.id == a.id for t in x.targets)]
+                return len(binds) == 1 and norm(binds[0].value) == 'self.pooled_covariance'
+            return False
+        ctx.check(bool(inv) and all(s.value.args and is_cov(s.value.args[0]) for s in inv), 'C14-D2', f'{bc.key}::inverse of',
                   'pooled_covariance_inv is not the pseudo-inverse of self.pooled_covariance', 'pooled_covariance_inv = pinv(pooled_covariance)', bc.where())
     # what the matcher reads
     m = prog.need_class(TPL, '_BaseTemplateAttackDistinguisherMixin')
@@ -266,6 +274,7 @@ class _TplEval:
         rf = self.rf
         outs = []
         self.pylists = set()
+        alias, arrays = {}, set()
 
         def block(stmts):
             for st in stmts:
@@ -281,10 +290,19 @@ class _TplEval:
                     v = self.value(st.value)
                     if isinstance(t, ast.Name):
                         self.ev_.env[t.id] = v
+                        alias.pop(t.id, None)
+                        if isinstance(st.value, ast.Attribute) and norm(st.value) in arrays:
+                            alias[t.id] = norm(st.value)        # a second name for the same array: `name op= v` changes the attribute too
                         if isinstance(st.value, ast.List) and not st.value.elts:
                             self.pylists.add(t.id)
                     elif isinstance(t, ast.Attribute):
                         self.attrs[norm(t)] = v
+                        for a_ in [a_ for a_, tgt_ in alias.items() if tgt_ == norm(t)]:
+                            del alias[a_]
+                        if isinstance(st.value, ast.Call) and norm(st.value.func).split('.')[-1] in ('zeros', 'empty', 'zeros_like', 'empty_like', 'ones'):
+                            arrays.add(norm(t))
+                        else:
+                            arrays.discard(norm(t))
                     continue
                 if isinstance(st, ast.AugAssign):
                     t = st.target
@@ -296,8 +314,13 @@ class _TplEval:
                     new = self.ev_.lift(ops[type(st.op)], cur, v)
                     if isinstance(t, ast.Name):
                         self.ev_.env[t.id] = new
+                        if t.id in alias:
+                            self.attrs[alias[t.id]] = new          # in place on the shared array
                     elif isinstance(t, ast.Attribute):
                         self.attrs[norm(t)] = new
+                        for a_, tgt_ in alias.items():
+                            if tgt_ == norm(t):
+                                self.ev_.env[a_] = new
                     else:
                         raise rf.Unknown('augmented store into an element')
                     continue
@@ -319,6 +342,10 @@ class _TplEval:
                         except rf.Unknown:
                             pass
                         cnt = len(v) if isinstance(v, list) else None
+                        if cnt is None and isinstance(v, rf.RF):       # a local holding len(<classes>)
+                            for c_ in range(0, 9):
+                                if v.num == rf.Poly.const(c_) * v.den:
+                                    cnt = c_
                     if cnt is None or idx_t is None or not isinstance(idx_t, ast.Name):
                         raise rf.Unknown(f'loop over `{norm(it)[:40]}`')
                     for k in range(cnt):
